@@ -130,6 +130,21 @@ class Calls(DataModels):
             return r
         if func is None:
             raise PyExc('TypeError', ln, 'None is not callable')
+        from .vals import AbstractParser
+        if isinstance(func, AbstractParser):
+            st = args[0]
+            if not isinstance(st, SStream) or len(args) != 1:
+                raise Unsupported('abstract parser applied to %r' % (args,))
+            p0 = to_int(st.pos)
+            end = z3.Function(func.table + '.end', ArrS, IntS, IntS, IntS)(st.arr, p0, func.key)
+            ok = z3.Function(func.table + '.ok', ArrS, IntS, IntS, IntS, BoolS)(st.arr, to_int(st.length), p0, func.key)
+            if not I.ctx.branch(ok):
+                raise PyExc('ELFParseError', ln, 'operand parser of key %s fails' % func.key)
+            I.ctx.assume(z3.And(end >= p0, end <= to_int(st.length)))
+            st.pos = end
+            I.assumptions.add('entries of the dispatch table %s are abstract operand parsers (end/args functions of bytes, position, key); '
+                              'the real entries are decided by the table-conformance obligations' % func.table)
+            return z3.Function(func.table + '.args', ArrS, IntS, IntS, IntS)(st.arr, p0, func.key)       # abstract handle of the operand list
         if isinstance(func, Opaque):
             raise Unsupported('call of opaque %s (line %s)' % (func.what, ln))
         name = getattr(func, '__name__', None)
